@@ -244,6 +244,25 @@ func ruleClassBits(c *report.Ctx) {
 	}
 	clsStaking := p.Obj(pkgTxmgr, "ClassStakingUtxo")
 	clsBinding := p.Obj(pkgTxmgr, "ClassBindingUtxo")
+	// kindOf: which of change / staking / binding the guards of an instruction speak of
+	kindOf := func(in ssa.Instruction) string {
+		kind := "?"
+		for _, g := range p.GuardsOf(in) {
+			d := g.Text
+			switch {
+			case strings.Contains(d, "Change") || d == "param:bool":
+				kind = "change"
+			case strings.Contains(d, "IsStaking") || (clsStaking != nil && g.Op == token.EQL && g.Y != nil && p.Desc(g.Y) == constString(clsStaking) && strings.Contains(d, "Class")):
+				kind = "staking"
+			case strings.Contains(d, "IsBinding") || (clsBinding != nil && g.Op == token.EQL && g.Y != nil && p.Desc(g.Y) == constString(clsBinding) && strings.Contains(d, "Class")):
+				kind = "binding"
+			}
+			if kind != "?" {
+				break
+			}
+		}
+		return kind
+	}
 	// writer: map kind → mask, from stores to v[8] of (old | mask) or plain mask under a guard
 	writerBits := func(f *ssa.Function) map[string]int64 {
 		out := map[string]int64{}
@@ -268,23 +287,52 @@ func ruleClassBits(c *report.Ctx) {
 				}
 			}
 			if mask < 0 {
+				// the byte assembled in a variable and stored once: every `x | mask` on the way into the stored value
+				// counts, under what held where it was computed (and a constant merged in, under what held on its edge)
+				seen := map[ssa.Value]bool{}
+				var walk func(v ssa.Value)
+				walk = func(v ssa.Value) {
+					if v == nil || seen[v] {
+						return
+					}
+					seen[v] = true
+					switch x := v.(type) {
+					case *ssa.Phi:
+						for i, e := range x.Edges {
+							if k, isK := constInt(e); isK {
+								if k > 0 && i < len(x.Block().Preds) {
+									pr := x.Block().Preds[i]
+									if kd := kindOf(pr.Instrs[len(pr.Instrs)-1]); kd != "?" {
+										out[kd] = k
+									}
+								}
+								continue
+							}
+							walk(e)
+						}
+					case *ssa.BinOp:
+						if x.Op != token.OR {
+							return
+						}
+						if k, isK := constInt(x.Y); isK {
+							if kd := kindOf(x); kd != "?" {
+								out[kd] = k
+							}
+							walk(x.X)
+						} else if k, isK := constInt(x.X); isK {
+							if kd := kindOf(x); kd != "?" {
+								out[kd] = k
+							}
+							walk(x.Y)
+						}
+					case *ssa.Convert:
+						walk(x.X)
+					}
+				}
+				walk(st.Val)
 				return
 			}
-			kind := "?"
-			for _, g := range p.GuardsOf(st) {
-				d := g.Text
-				switch {
-				case strings.Contains(d, "Change") || d == "param:bool":
-					kind = "change"
-				case strings.Contains(d, "IsStaking") || (clsStaking != nil && g.Op == token.EQL && g.Y != nil && p.Desc(g.Y) == constString(clsStaking) && strings.Contains(d, "Class")):
-					kind = "staking"
-				case strings.Contains(d, "IsBinding") || (clsBinding != nil && g.Op == token.EQL && g.Y != nil && p.Desc(g.Y) == constString(clsBinding) && strings.Contains(d, "Class")):
-					kind = "binding"
-				}
-				if kind != "?" {
-					break
-				}
-			}
+			kind := kindOf(st)
 			out[kind] = mask
 		})
 		return out
